@@ -82,6 +82,39 @@ def cases(ctx):
                     count += 1
                     yield build(version, True, combo)
     ctx.exhaustive["1.x-restored-sleeping"] = count
+    # parked commands survive a protocol switch, a reconnect and every non-wake internal type
+    count = 0
+    reports = {"2.0": "2.0.0", "2.1": "2.1.1", "2.2": "2.2.0"}
+    for start in (None, "1.4", "1.5", "2.0", "2.1", "2.2"):
+        for target, text in reports.items():
+            for form in ("0;255;3;0;2;{}\n", "0;255;0;0;18;{}\n"):
+                for between in ([], [["reenter"]], [["rx", f"{B};255;3;0;0;9\n"]]):
+                    if not ctx.mine():
+                        continue
+                    count += 1
+                    wake = 32 if target == "2.2" else 22
+                    steps = [["restore", n, {"type": 17, "version": "2.0", "sleeping": True,
+                                             "children": {"0": [3, "c", {}], "1": [3, "c", {}]}}] for n in (A, B)]
+                    steps += [["tx", [A, 0, 1, 0, 2, "held1"], True], ["tx", [B, 1, 1, 1, 3, "held2"], True],
+                              ["rx", form.format(text)], *between, ["tx", [A, 1, 1, 0, 2, "held3"], True],
+                              ["rx", f"{A};255;3;0;{wake};1\n"], ["rx", f"{B};255;3;0;{wake};1\n"]]
+                    yield {"version": start, "steps": steps}
+    for version in ("2.0", "2.1", "2.2"):
+        wake = 32 if version == "2.2" else 22
+        from .. import spec as _spec
+
+        for t in range(0, _spec.INTERNAL_MAX[version] + 1):
+            if t == wake or t in (2, 3):
+                continue
+            if not ctx.mine():
+                continue
+            count += 1
+            steps = [["restore", n, {"type": 17, "version": "2.0", "sleeping": True, "children": {"0": [3, "c", {}]}}]
+                     for n in (A, B)]
+            steps += [["tx", [A, 0, 1, 0, 2, "held1"], True], ["tx", [B, 0, 1, 0, 2, "held2"], True],
+                      ["rx", f"{A};255;3;0;{t};1\n"], ["rx", f"{A};255;3;0;{wake};1\n"], ["rx", f"{B};255;3;0;{wake};1\n"]]
+            yield {"version": version, "steps": steps}
+    ctx.exhaustive["switch-reenter-nonwake-types"] = count
     # random long histories
     for i in range(ctx.pick(300, 8000) // ctx.shard_count):
         version = ("2.0", "2.1", "2.2", "2.2", "1.5")[i % 5]
@@ -94,7 +127,14 @@ def cases(ctx):
         wake = 32 if version == "2.2" else 22
         for _ in range(rng.choice([40, 100, 200])):
             roll = rng.random()
-            if roll < 0.5:
+            if roll < 0.02:
+                steps.append(["reenter"])
+            elif roll < 0.06:
+                # a version report that may switch the protocol in force while commands are parked
+                new_version = rng.choice(["2.0.0", "2.1.0", "2.2.0", "2.3.2"])
+                steps.append(["rx", rng.choice([f"0;255;3;0;2;{new_version}\n", f"0;255;0;0;18;{new_version}\n"])])
+                wake = 32 if new_version.startswith(("2.2", "2.3")) else 22
+            elif roll < 0.5:
                 steps.append(gen.tx_op())
             elif roll < 0.75:
                 steps.append(["rx", f"{rng.choice([1, 2, 7])};255;3;0;{wake};{rng.randint(0, 9)}\n"])
